@@ -325,6 +325,27 @@ func genC03(r *Rng, tier string, emit func(string, Tok)) {
 		}
 		emit(kindName, scenario{kind: r.Intn(3) + 10*r.Intn(2), optSize: sizes(r), fault: -1, chunks: []int{r.Range(1, 500)}, data: data, ops: ops(r)}.tok())
 	}
+	// lost packets right before a unit start, and unit starts carrying the discontinuity indicator: the accumulator
+	// flushes an empty group there
+	for k := 0; k < scale(tier, 12, 80); k++ {
+		m := randStream(r, true)
+		data := m.bytes()
+		var d []byte
+		np := len(data) / 188
+		for i := 0; i < np; i++ {
+			b := data[188*i : 188*i+188]
+			next := i+1 < np && data[188*(i+1)+1]&0x40 != 0 && data[188*(i+1)+1]&0x1f == b[1]&0x1f && data[188*(i+1)+2] == b[2]
+			if next && r.Chance(1, 2) {
+				continue // drop the last packet of a unit
+			}
+			c := append([]byte{}, b...)
+			if c[1]&0x40 != 0 && c[3]&0x20 != 0 && c[4] > 0 && r.Chance(1, 3) {
+				c[5] |= 0x80 // discontinuity_indicator on a unit start
+			}
+			d = append(d, c...)
+		}
+		emit("gap-before-unit-start", scenario{kind: r.Intn(3), optSize: 188, fault: -1, data: d, ops: ops(r)}.tok())
+	}
 	// truncation at every offset of a small stream
 	m := genRefStream(r, streamOpts{PESPIDs: 1, UnitsPerPID: 2, MaxPES: 200, Tables: true})
 	data := m.bytes()
@@ -361,9 +382,29 @@ func oracleC03(s scenario, run *demuxRun) string {
 // ---------------- C02: exactly the units a stream carries ----------------
 
 func genC02(r *Rng, tier string, emit func(string, Tok)) {
+	// K3: a long PAT section that ends in the packet in which the next section starts (pointer_field > 0)
+	for k := 0; k < scale(tier, 2, 10); k++ {
+		s1 := &refSection{TableID: 0, Ext: uint16(r.Bits(16)), Version: byte(r.Intn(32))}
+		for j := 0; j < r.Range(46, 60); j++ {
+			s1.Programs = append(s1.Programs, refProgram{Number: uint16(1 + j), PID: uint16(0x30 + j)})
+		}
+		s2 := &refSection{TableID: 0, Ext: s1.Ext, Version: s1.Version, Programs: []refProgram{{Number: 900, PID: 0x90}}}
+		e1, e2 := s1.encode(), s2.encode()
+		cc := byte(r.Intn(16))
+		var d []byte
+		p1 := &refPacket{PID: 0, PUSI: true, CC: cc, AFLen: -1, Payload: append([]byte{0}, e1[:183]...)}
+		tail := e1[183:]
+		pl := append(append([]byte{byte(len(tail))}, tail...), e2...)
+		p2 := &refPacket{PID: 0, PUSI: true, CC: (cc + 1) & 15, AFLen: -1, Payload: pl}
+		for len(p2.Payload) < 184 {
+			p2.Payload = append(p2.Payload, 0xff)
+		}
+		d = append(append(d, p1.encode()...), p2.encode()...)
+		emit("straddle", scenario{kind: 1, optSize: 188, fault: -1, data: d, ops: []int{3}}.tok())
+	}
 	n := scale(tier, 120, 1500)
 	for k := 0; k < n; k++ {
-		m := genRefStream(r, streamOpts{PESPIDs: r.Range(1, 7), UnitsPerPID: r.Range(1, 4), MaxPES: []int{60, 400, 1500, 70000}[r.Intn(4) % (3 + r.Intn(2))],
+		m := genRefStream(r, streamOpts{PESPIDs: r.Range(1, 7), UnitsPerPID: r.Range(1, 4), MaxPES: []int{60, 400, 1500, 70000}[r.Intn(4)%(3+r.Intn(2))],
 			Tables: true, Fillers: r.Bool(), SmallChunks: r.Chance(1, 3), Repeats: r.Intn(3)})
 		emit("stream", scenario{kind: r.Intn(2), optSize: 188, fault: -1, data: m.bytes(), ops: []int{3}}.tok())
 	}
@@ -529,7 +570,83 @@ func psiPIDsOf(units map[uint16][]*obsUnit) map[uint16]bool {
 	return out
 }
 
+// isoPATSections re-assembles the sections carried on PID 0 the way ISO 13818-1 2.4.4 defines it: in a packet with
+// payload_unit_start the pointer_field bytes that precede the first new section continue the section in progress.
+// straddles = number of sections that were continued after a non-zero pointer_field.
+func isoPATSections(data []byte) (secs []string, straddles int) {
+	var cur []byte                   // section in progress
+	need := 0                        // total size of the section in progress (0 = none)
+	parse := func(b []byte) []byte { // start new sections from b; returns the unfinished remainder
+		for len(b) > 0 && b[0] != 0xff {
+			if len(b) < 3 {
+				return b
+			}
+			n := 3 + (int(b[1]&0x0f)<<8 | int(b[2]))
+			if len(b) < n {
+				return b
+			}
+			secs = append(secs, refDecodeUnit(&obsUnit{pid: 0, payload: append([]byte{0}, b[:n]...)}, true)...)
+			b = b[n:]
+		}
+		return nil
+	}
+	for off := 0; off+188 <= len(data); off += 188 {
+		b := data[off : off+188]
+		if b[1]&0x80 != 0 || b[3]&0x10 == 0 || (int(b[1]&0x1f)<<8|int(b[2])) != 0 {
+			continue
+		}
+		p := 4
+		if b[3]&0x20 != 0 {
+			p += 1 + int(b[4])
+		}
+		if p >= 188 {
+			continue
+		}
+		pl := b[p:]
+		if b[1]&0x40 != 0 {
+			ptr := int(pl[0])
+			if 1+ptr > len(pl) {
+				continue
+			}
+			if need > 0 {
+				cur = append(cur, pl[1:1+ptr]...)
+				if len(cur) >= need {
+					parse(cur[:need])
+					if ptr > 0 {
+						straddles++
+					}
+				}
+			}
+			cur, need = nil, 0
+			rest := parse(pl[1+ptr:])
+			if len(rest) >= 3 {
+				cur = append([]byte{}, rest...)
+				need = 3 + (int(rest[1]&0x0f)<<8 | int(rest[2]))
+			}
+		} else if need > 0 {
+			cur = append(cur, pl...)
+			if len(cur) >= need {
+				parse(cur[:need])
+				cur, need = nil, 0
+			}
+		}
+	}
+	return
+}
+
 func oracleC02(s scenario, run *demuxRun) string {
+	if iso, straddles := isoPATSections(s.data); straddles > 0 {
+		var gotPAT []string
+		for _, d := range run.data {
+			if d != nil && d.PID == 0 {
+				gotPAT = append(gotPAT, describeData(d))
+			}
+		}
+		if d := diffSeq(gotPAT, iso); d != "" {
+			return "K3: a section continued after a non-zero pointer_field (ISO 13818-1 2.4.4) is not re-assembled: " + d
+		}
+		return ""
+	}
 	units := unitsOf(s.data)
 	psi := psiPIDsOf(units)
 	want := map[uint16][]string{}
@@ -623,6 +740,29 @@ func genC06(r *Rng, tier string, emit func(string, Tok)) {
 			}
 			emit("multi-fault", scenario{kind: 1, optSize: 188, fault: -1, prsSpec: L(I(1)), data: d, ops: []int{3}}.tok())
 		}
+	}
+	// K2: the first packet of a unit is lost and the continuation begins with a start code
+	for k := 0; k < scale(tier, 3, 20); k++ {
+		var d []byte
+		cc := r.Intn(16)
+		mk := func(pusi bool, payload []byte) {
+			cc = (cc + 1) & 15
+			p := &refPacket{PID: 0x140, PUSI: pusi, CC: byte(cc), AFLen: -1, Payload: payload}
+			d = append(d, p.encode()...)
+		}
+		pes := func(n int) []byte {
+			b := append([]byte{0, 0, 1, 0xe0, 0, 0, 0x80, 0, 0}, r.Bytes(n)...)
+			return b
+		}
+		mk(true, pes(175))
+		mk(true, pes(175)) // unit whose first packet will be deleted ...
+		lost := len(d)/188 - 1
+		mk(false, append(pes(100), r.Bytes(75)...)) // ... and whose continuation begins 00 00 01 e0
+		mk(false, r.Bytes(184))
+		mk(true, pes(175))
+		mk(false, r.Bytes(184))
+		f := append(append([]byte{}, d[:188*lost]...), d[188*(lost+1):]...)
+		emit("orphan-startcode", scenario{kind: 1, optSize: 188, fault: -1, prsSpec: L(I(1)), data: f, ops: []int{3}}.tok())
 	}
 	// bounded-exhaustive raw packet sequences over 2 PIDs x {dup, +1, gap} x PUSI x {payload, AF-only, TEI, discontinuity flag}
 	maxLen := scale(tier, 4, 5)
@@ -750,33 +890,52 @@ func oracleC06Faulted(s scenario, run *demuxRun) string {
 		intact      bool // no counter gap inside the unit
 		gapAfter    bool // a gap was revealed by the packet following the unit
 	}
+	var orphans [][]byte // payloads of runs of continuation packets that belong to no unit (first packet lost)
 	assemble := func(pks []pk) (cs []*cand, hasGap bool) {
 		var cur *cand
+		var orphan []byte
+		inOrphan := false
 		prev := -1
+		closeOrphan := func() {
+			if inOrphan && len(orphan) > 0 {
+				orphans = append(orphans, orphan)
+			}
+			orphan, inOrphan = nil, false
+		}
 		for _, p := range pks {
 			if prev >= 0 && p.cc == prev {
 				continue // duplicate
 			}
 			gap := prev >= 0 && p.cc != (prev+1)&15
+			first := prev < 0
 			prev = p.cc
 			if gap {
 				hasGap = true
+				closeOrphan()
 				if cur != nil {
 					cur.gapAfter = true
 				}
 				if !p.pusi {
 					cur = nil // orphan continuation packets belong to no unit
+					inOrphan = true
 				}
 			}
+			if first && !p.pusi {
+				inOrphan = true
+			}
 			if p.pusi {
+				closeOrphan()
 				cur = &cand{first: p.idx, intact: true}
 				cs = append(cs, cur)
+			} else if inOrphan {
+				orphan = append(orphan, p.payload...)
 			}
 			if cur != nil {
 				cur.payload = append(cur.payload, p.payload...)
 				cur.last = p.idx
 			}
 		}
+		closeOrphan()
 		return
 	}
 	// when is the first PAT delivered?
@@ -871,6 +1030,31 @@ func oracleC06Faulted(s scenario, run *demuxRun) string {
 			continue
 		}
 		if !isSubsequence(got[pid], allowed) {
+			// K2: is every foreign unit the decoding of an orphan run that happens to begin with a start code?
+			var orphanDec []string
+			for _, o := range orphans {
+				orphanDec = append(orphanDec, refDecodeUnit(&obsUnit{pid: pid, payload: o}, false)...)
+			}
+			onlyOrphans := len(orphanDec) > 0
+			for _, g := range got[pid] {
+				in := false
+				for _, a := range allowed {
+					if a == g {
+						in = true
+					}
+				}
+				for _, a := range orphanDec {
+					if a == g {
+						in = true
+					}
+				}
+				if !in {
+					onlyOrphans = false
+				}
+			}
+			if onlyOrphans {
+				return fmt.Sprintf("K2: PID %d: after a loss, continuation packets whose payload begins 00 00 01 were delivered as a PES packet", pid)
+			}
 			return fmt.Sprintf("PID %d: after packet loss a delivered unit is not byte-identical to a gap-free unit of the stream (splice or foreign data): %s", pid, diffSeq(got[pid], allowed))
 		}
 		// the only units missing are those that lost a packet and the unit preceding each gap: every intact unit
@@ -887,8 +1071,12 @@ func oracleC06Faulted(s scenario, run *demuxRun) string {
 func genC07(r *Rng, tier string, emit func(string, Tok)) {
 	n := scale(tier, 60, 500)
 	for k := 0; k < n; k++ {
-		m := genRefStream(r, streamOpts{PESPIDs: r.Range(2, 5), UnitsPerPID: r.Range(1, 4), MaxPES: 600, Tables: true, Fillers: r.Bool(), SmallChunks: r.Chance(1, 3), Repeats: r.Intn(2)})
-		emit("merge", scenario{kind: 1, optSize: 188, fault: -1, data: m.bytes(), ops: []int{3}}.tok())
+		m := genRefStream(r, streamOpts{PESPIDs: r.Range(2, 5), UnitsPerPID: r.Range(1, 4), MaxPES: 600, Tables: true, Fillers: r.Bool() || k%3 == 0, SmallChunks: r.Chance(1, 3), Repeats: r.Intn(2), NearPIDs: k%3 == 0})
+		kindName := "merge"
+		if k%3 == 0 {
+			kindName = "merge-near-pids"
+		}
+		emit(kindName, scenario{kind: 1, optSize: 188, fault: -1, data: m.bytes(), ops: []int{3}}.tok())
 	}
 }
 
